@@ -441,7 +441,7 @@ class Harness(object):
     BAD_KINDS = ['neg_asub', 'neg_awd', 'over_awd', 'neg_psub', 'over_psub', 'unk_psub', 'neg_pwd', 'over_pwd',
                  'unk_pwd', 'dup', 'dup_int', 'unk_order', 'cur', 'cur_ctor', 'neg_init', 'unk_get_cash', 'unk_get_mv',
                  'unk_get_equity', 'unk_get_dict', 'early_sub', 'early_wd', 'early_txn', 'early_mark', 'neg_mark',
-                 'p_neg_sub', 'p_neg_wd', 'p_over_wd', 'multi_unk_neg', 'lead_psub', 'lead_pwd']
+                 'p_neg_sub', 'p_neg_wd', 'p_over_wd', 'multi_unk_neg', 'lead_psub', 'lead_pwd', 'stale_update']
 
     def op_bad(self, op, before):
         """An invalid request: must raise the documented error type and leave the deep snapshot unchanged."""
@@ -482,6 +482,22 @@ class Harness(object):
             call, exp = (lambda: b.get_portfolio_as_dict('nope')), KE
         elif kind == 'multi_unk_neg':
             call, exp = (lambda: b.subscribe_funds_to_portfolio('nope', -x)), VE + KE
+        elif kind == 'stale_update':
+            # a broker update to a time earlier than the clock of every portfolio that holds a position: the first
+            # re-mark is refused by that portfolio, so nothing listed may change.  (update() assigns the broker's own
+            # clock before validating - not one of the listed items - so the harness puts that clock back.)
+            holders = [p_ for p_ in b.portfolios.values() if p_.pos_handler.positions]
+            if not holders:
+                return
+            et = min(p_.current_dt for p_ in holders) - pd.Timedelta(minutes=1 if x < 50 else 1440)
+            saved_clock = b.current_dt
+
+            def call():
+                try:
+                    b.update(et)
+                finally:
+                    b.current_dt = saved_clock
+            self.flags.add('stale_broker_update')
         elif pid is None:
             return
         elif kind == 'neg_psub':
